@@ -2,6 +2,7 @@ package props
 
 import (
 	"fmt"
+	"runtime"
 	"sync"
 	"testing"
 	"time"
@@ -232,6 +233,8 @@ func execC17Interleave(t *testing.T, p Plan, src kernel.Source) Result {
 // simulation): no bubble, no kernel, the real sync.RWMutex.
 func execC17Parallel(p Plan) Result {
 	var res Result
+	// this stage wants real parallelism; the simulation worker otherwise runs on one P
+	defer runtime.GOMAXPROCS(runtime.GOMAXPROCS(8))
 	h, _ := inmem.New()
 	pre := inmemPrefix(p.Seed)
 	n := int(p.X["goroutines"])
